@@ -186,7 +186,7 @@ func mkPeer(kind, dir, sc string, data []byte, tmp string) (*peer, error) {
 			},
 			cleanup: srv.Close,
 		}, nil
-	case "system-pty":
+	case "system-pty", "system-pty-netconf":
 		pf := filepath.Join(tmp, "payload")
 		of := filepath.Join(tmp, "out")
 		_ = os.WriteFile(pf, data, 0o600)
@@ -201,7 +201,11 @@ func mkPeer(kind, dir, sc string, data []byte, tmp string) (*peer, error) {
 		var tr *transport.Transport
 		return &peer{
 			open: func(rs int) (*transport.Transport, error) {
-				t, err := transport.NewTransport(noLog(), "127.0.0.1", transport.SystemTransport, options.WithSystemTransportOpenBin(fakeBin()), options.WithTransportReadSize(rs))
+				o := []util.Option{options.WithSystemTransportOpenBin(fakeBin()), options.WithTransportReadSize(rs)}
+				if kind == "system-pty-netconf" {
+					o = append(o, netconfConn) // the netconf-subsystem flavour of the system transport has its own open path
+				}
+				t, err := transport.NewTransport(noLog(), "127.0.0.1", transport.SystemTransport, o...)
 				if err != nil {
 					return nil, err
 				}
@@ -365,7 +369,7 @@ func unblockCell(w *sched.W, kind, how string) {
 	w.Case(kind+how, tag)
 	tmp, _ := os.MkdirTemp("", "c16")
 	defer os.RemoveAll(tmp)
-	if kind == "system-pty" && how == "peer-closes" {
+	if strings.HasPrefix(kind, "system-pty") && how == "peer-closes" {
 		os.Setenv("FAKESSH_EXIT", "1")
 		defer os.Setenv("FAKESSH_EXIT", "")
 	}
@@ -375,7 +379,7 @@ func unblockCell(w *sched.W, kind, how string) {
 		return
 	}
 	defer p.cleanup()
-	if kind == "system-pty" && how == "peer-closes" {
+	if strings.HasPrefix(kind, "system-pty") && how == "peer-closes" {
 		os.Setenv("FAKESSH_EXIT", "1")
 	}
 	t, err := p.open(64)
@@ -406,6 +410,64 @@ func unblockCell(w *sched.W, kind, how string) {
 		w.Violate("c16:blocked-read-never-returns:"+kind+":"+how, tag, tag)
 	}
 	_ = t.Close(true)
+}
+
+// telnetNegCell: the server's opening (two option negotiations, then text) reaches the client in two TCP
+// segments cut at byte cutAt: the text, and nothing else, is returned by the first reads and both requests
+// are answered. Generous real-time margins: the halves are 20ms apart, the client waits 1s/2s per byte.
+func telnetNegCell(w *sched.W, rs, cutAt int) {
+	tag := fmt.Sprintf("telnet-neg rs=%d cut=%d", rs, cutAt)
+	if r := w.Replaying(); r != nil && r.Case != tag {
+		return
+	}
+	w.Case(tag, tag)
+	opening := []byte{255, 253, 1, 255, 251, 3} // IAC DO ECHO, IAC WILL SGA
+	wantReplies := []byte{255, 252, 1, 255, 253, 3}
+	text := []byte("login: ")
+	var mu sync.Mutex
+	var replies []byte
+	srv, err := loop.NewTCPServer(func(c net.Conn) {
+		if tc, ok := c.(*net.TCPConn); ok {
+			_ = tc.SetNoDelay(true)
+		}
+		_, _ = c.Write(opening[:cutAt])
+		time.Sleep(20 * time.Millisecond)
+		_, _ = c.Write(append(append([]byte{}, opening[cutAt:]...), text...))
+		buf := make([]byte, 64)
+		for {
+			n, err := c.Read(buf)
+			mu.Lock()
+			replies = append(replies, buf[:n]...)
+			mu.Unlock()
+			if err != nil {
+				return
+			}
+		}
+	})
+	if err != nil {
+		w.Violate("c16:harness", tag+": "+err.Error(), tag)
+		return
+	}
+	defer srv.Close()
+	t, err := transport.NewTransport(noLog(), "127.0.0.1", transport.TelnetTransport, options.WithPort(srv.Port), options.WithTransportReadSize(rs), options.WithTimeoutSocket(4*time.Second))
+	if err == nil {
+		err = t.Open()
+	}
+	if err != nil {
+		w.Violate("c16:open-failed:telnet-neg", tag+": "+err.Error(), tag)
+		return
+	}
+	defer func() { _ = t.Close(true) }()
+	got, rerr := readN(t, len(text), nil)
+	if rerr != nil || !bytes.Equal(got, text) {
+		w.Violate("c16:telnet-opening-data-differs", fmt.Sprintf("%s: first reads returned %v (%v) want %v", tag, got, rerr, text), tag)
+	}
+	loop.WaitFor(10*time.Second, func() bool { mu.Lock(); defer mu.Unlock(); return len(replies) >= len(wantReplies) })
+	mu.Lock()
+	defer mu.Unlock()
+	if !bytes.Equal(replies, wantReplies) {
+		w.Violate("c16:telnet-opening-replies-differ", fmt.Sprintf("%s: server received %v want %v", tag, replies, wantReplies), tag)
+	}
 }
 
 // ---- end-to-end sessions ---------------------------------------------------------------------------
@@ -543,7 +605,7 @@ func e2eNetconf(w *sched.W) {
 
 func scenarios(tier string) []sched.Scenario {
 	var out []sched.Scenario
-	kinds := []string{"standard-shell", "standard-netconf", "telnet-loop", "system-pty"}
+	kinds := []string{"standard-shell", "standard-netconf", "telnet-loop", "system-pty", "system-pty-netconf"}
 	for _, kind := range kinds {
 		for _, rs := range []int{1, 7, 64, 8192} {
 			kind, rs := kind, rs
@@ -580,6 +642,16 @@ func scenarios(tier string) []sched.Scenario {
 		out = append(out, sched.Scenario{Name: "e2e-cli/" + k, Run: func(w *sched.W) { e2eCLI(w, k) }})
 	}
 	out = append(out, sched.Scenario{Name: "e2e-netconf", Run: e2eNetconf})
+	for _, rs := range []int{1, 64} {
+		for _, half := range []int{0, 1} {
+			rs, half := rs, half
+			out = append(out, sched.Scenario{Name: fmt.Sprintf("telnet-neg/rs=%d/%d", rs, half), Run: func(w *sched.W) {
+				for cutAt := 1 + 3*half; cutAt <= 3+3*half && cutAt < 6; cutAt++ {
+					telnetNegCell(w, rs, cutAt)
+				}
+			}})
+		}
+	}
 	return out
 }
 
@@ -587,7 +659,7 @@ func TestCheck(t *testing.T) {
 	sched.Main(t, sched.Check{
 		ID:    "C16",
 		Level: "exploration",
-		Rule:  "finite grid, every cell executed once over real OS objects: transport {standard ssh shell, standard ssh netconf subsystem (in-process x/crypto/ssh server), telnet over loopback TCP, system transport over a pty with a stand-in peer in raw mode} x read size {1,7,64,8192} x payload size {1,n-1,n,n+1,2n+1,3n} (bytes cycling through 0x00-0xff) x peer script {one write, two halves, byte at a time, write-pause-write} x direction {peer->client, client->peer, echo}; plus a read blocked when the transport is force-closed / when the peer goes away, and end-to-end CLI and NETCONF sessions whose results must equal those obtained over the ideal fake transport; distinct = distinct cells",
+		Rule:  "finite grid, every cell executed once over real OS objects: transport {standard ssh shell, standard ssh netconf subsystem (in-process x/crypto/ssh server), telnet over loopback TCP, system transport over a pty with a stand-in peer in raw mode (shell and netconf-subsystem flavours)} x read size {1,7,64,8192} x payload size {1,n-1,n,n+1,2n+1,3n} (bytes cycling through 0x00-0xff) x peer script {one write, two halves, byte at a time, write-pause-write} x direction {peer->client, client->peer, echo}; plus a telnet opening split into two TCP segments at every offset; plus a read blocked when the transport is force-closed / when the peer goes away, and end-to-end CLI and NETCONF sessions whose results must equal those obtained over the ideal fake transport; distinct = distinct cells",
 		Assumptions: []string{
 			"real sockets, ptys and crypto/ssh cannot run under the controlled scheduler: kernel scheduling and TCP/pty buffering are not enumerated, each cell is one run (stated limit)",
 			"pty leg: the stand-in peer switches the pty to raw mode and prints READY before the session counts as up",
